@@ -27,6 +27,7 @@ type c05Case struct {
 	Index   int64  `json:"index"`
 	Role    string `json:"receiver_role"` // "dialled" or "accepted"
 	Buf     uint32 `json:"receive_buffer"`
+	SendBuf uint32 `json:"send_buffer_of_the_receiver,omitempty"` // 0 = same as the receive buffer
 	Seg     string `json:"segmentation"`
 	Frames  int    `json:"frames"`
 	Bad     string `json:"malformed_tail,omitempty"`
@@ -134,7 +135,11 @@ func c05Segments(r *rand.Rand, pattern string, stream []byte, frames []c05Frame)
 }
 
 // c05Pair returns the real uacp.Conn under test and the raw socket of the other side.
-func c05Pair(role string, buf uint32) (*uacp.Conn, *net.TCPConn, error) {
+func c05Pair(role string, buf, sendBuf uint32) (*uacp.Conn, *net.TCPConn, error) {
+	// buf: what the connection under test may receive; sendBuf: what it may send (the other direction)
+	if sendBuf == 0 {
+		sendBuf = buf
+	}
 	ctx, cancel := context.WithTimeout(context.Background(), 10*time.Second)
 	defer cancel()
 	if role == "dialled" {
@@ -152,13 +157,13 @@ func c05Pair(role string, buf uint32) (*uacp.Conn, *net.TCPConn, error) {
 			c, err := l.Accept()
 			if err == nil {
 				if _, err = refpeer.ReadFrame(c, 0); err == nil { // HEL
-					a := refpeer.Ack{RecvBuf: buf, SendBuf: buf, MaxMsg: 0, MaxChunks: 0}
+					a := refpeer.Ack{RecvBuf: sendBuf, SendBuf: buf, MaxMsg: 0, MaxChunks: 0}
 					_, err = c.Write(refpeer.MakeFrame("ACKF", a.Encode()))
 				}
 			}
 			ch <- acc{c, err}
 		}()
-		d := &uacp.Dialer{ClientACK: &uacp.Acknowledge{ReceiveBufSize: buf, SendBufSize: buf}}
+		d := &uacp.Dialer{ClientACK: &uacp.Acknowledge{ReceiveBufSize: buf, SendBufSize: sendBuf}}
 		conn, err := d.Dial(ctx, "opc.tcp://"+l.Addr().String())
 		a := <-ch
 		if err != nil || a.err != nil {
@@ -174,7 +179,7 @@ func c05Pair(role string, buf uint32) (*uacp.Conn, *net.TCPConn, error) {
 	}
 	port := freePort()
 	ep := fmt.Sprintf("opc.tcp://127.0.0.1:%d", port)
-	l, err := uacp.Listen(ctx, ep, &uacp.Acknowledge{ReceiveBufSize: buf, SendBufSize: buf, MaxChunkCount: 0, MaxMessageSize: 0})
+	l, err := uacp.Listen(ctx, ep, &uacp.Acknowledge{ReceiveBufSize: buf, SendBufSize: sendBuf, MaxChunkCount: 0, MaxMessageSize: 0})
 	if err != nil {
 		return nil, nil, err
 	}
@@ -192,7 +197,7 @@ func c05Pair(role string, buf uint32) (*uacp.Conn, *net.TCPConn, error) {
 	if err != nil {
 		return nil, nil, err
 	}
-	h := refpeer.Hello{RecvBuf: buf, SendBuf: buf, URL: ep}
+	h := refpeer.Hello{RecvBuf: sendBuf, SendBuf: buf, URL: ep}
 	if _, err := raw.Write(refpeer.MakeFrame("HELF", h.Encode())); err != nil {
 		raw.Close()
 		return nil, nil, err
@@ -217,7 +222,7 @@ type c05Got struct {
 func c05One(c *fw.Ctx, cs c05Case) {
 	r := rand.New(rand.NewSource(cs.Seed))
 	c.Journal(cs.Index, cs)
-	conn, raw, err := c05Pair(cs.Role, cs.Buf)
+	conn, raw, err := c05Pair(cs.Role, cs.Buf, cs.SendBuf)
 	if err != nil {
 		c.Inconclusive("connection set-up: " + classOf(err.Error()))
 		return
@@ -393,6 +398,14 @@ func c05Cases(c *fw.Ctx) []c05Case {
 		if cs.Seg == "byte-at-a-time" {
 			cs.Frames = 1 + r.Intn(4)
 		}
+		// half of the streams: the two directions of the connection under test have different buffer sizes (the bound
+		// of a received frame is the receive buffer, whatever the send buffer is)
+		if r2 := c.Rng("c05dir", int64(i)); r2.Intn(2) == 0 {
+			cs.SendBuf = []uint32{8192, 16384, 65535, 1 << 20, 2 << 20}[r2.Intn(5)]
+			if cs.SendBuf == cs.Buf {
+				cs.SendBuf = cs.Buf + 8192
+			}
+		}
 		out = append(out, cs)
 	}
 	return out
@@ -416,8 +429,8 @@ func init() {
 	fw.Register("C05", fw.Spec{
 		Plan: func(tier string) fw.Plan {
 			p := fw.Plan{Batches: 8, TimeoutS: 900, MinNontrivial: 300, Level: "exploration",
-				Rule:        "streams of 1-12 frames (sizes 8, 9, small, random, buf-1, buf; known and unknown message and chunk types; ERR frames with generated code/reason) optionally followed by a malformed header (size 0-7, buf+1, 2^31, 2^32-1), written by a raw socket to a real uacp.Conn over loopback TCP (receiver obtained by Dial+Handshake and by Listen/Accept; receive buffers 8192, 65535, 2^20) with TCP_NODELAY under 6 segmentation patterns (coalesced, byte-at-a-time, per frame, every header cut at 1..7, segment ends exactly after a header / tail+head, random cuts) and yields between segments; oracle: delivered frames = sent frames byte for byte and in order, ERR frames surface as *uacp.Error with the sent code and reason, the malformed header and the end of the stream give an error, nothing is delivered after it, no panic, Receive returns after the writer closed (heartbeat clock); distinct = streams",
-				Assumptions: []string{"send and receive buffer sizes are equal in these runs (directions are the subject of C06)"}}
+				Rule:        "streams of 1-12 frames (sizes 8, 9, small, random, buf-1, buf; known and unknown message and chunk types; ERR frames with generated code/reason) optionally followed by a malformed header (size 0-7, buf+1, 2^31, 2^32-1), written by a raw socket to a real uacp.Conn over loopback TCP (receiver obtained by Dial+Handshake and by Listen/Accept; receive buffers 8192, 65535, 2^20; in half of the streams the send buffer of the same connection is a different one, smaller or larger) with TCP_NODELAY under 6 segmentation patterns (coalesced, byte-at-a-time, per frame, every header cut at 1..7, segment ends exactly after a header / tail+head, random cuts) and yields between segments; oracle: delivered frames = sent frames byte for byte and in order, ERR frames surface as *uacp.Error with the sent code and reason, the malformed header and the end of the stream give an error, nothing is delivered after it, no panic, Receive returns after the writer closed (heartbeat clock); distinct = streams",
+				Assumptions: []string{"which side's value ends up in which direction of the negotiation is the subject of C06; here both peers state the same pair of sizes"}}
 			if tier == "thorough" {
 				p.Batches, p.TimeoutS, p.MinNontrivial = 16, 3000, 20000
 			}
